@@ -20,6 +20,7 @@ mod ops_field;
 mod ops_scalar;
 mod ops_edwards;
 mod ops_misc;
+mod ops_vec;
 
 pub use curve25519_dalek::edwards::EdwardsPoint;
 pub use curve25519_dalek::montgomery::MontgomeryPoint;
@@ -63,6 +64,7 @@ fn dispatch(op: &str, e: &Value, ctx: &mut Ctx) -> Result<Value, String> {
         "fe" => ops_field::run(op, e, ctx),
         "sc" => ops_scalar::run(op, e, ctx),
         "ed" => ops_edwards::run(op, e, ctx),
+        "vec" | "const" => ops_vec::run(op, e, ctx),
         _ => ops_misc::run(op, e, ctx),
     }
 }
